@@ -236,8 +236,16 @@ func (ss *Sorts) Prelude() string {
 	for _, v := range ss.strOrder {
 		n := ss.strLits[v]
 		fmt.Fprintf(&b, "(declare-const %s Sq_Int)\n(assert (= (Sq_Int.len %s) %d))\n", n, n, len(v))
+		ascii := true
 		for i := 0; i < len(v) && i < 64; i++ {
 			fmt.Fprintf(&b, "(assert (= (Sq_Int.at %s %d) %d))\n", n, i, v[i])
+			if v[i] >= 128 {
+				ascii = false
+			}
+		}
+		if ascii && len(v) <= 64 {
+			// an ASCII literal is its own UTF-8 encoding / decoding
+			fmt.Fprintf(&b, "(assert (= (utf8.enc %s) %s))\n(assert (= (utf8.dec %s) %s))\n(assert (utf8.clean %s))\n", n, n, n, n, n)
 		}
 	}
 	b.WriteString("(declare-fun typeof! (Int) Int)\n")
@@ -274,6 +282,7 @@ func seqAxioms(S, E string) string {
 (assert (forall ((s $S)) (! (=> (= ($S.len s) 0) (= s $S.empty)) :pattern (($S.len s)))))
 (assert (forall ((e $E)) (! (= ($S.len ($S.unit e)) 1) :pattern (($S.unit e)))))
 (assert (forall ((e $E)) (! (= ($S.at ($S.unit e) 0) e) :pattern (($S.unit e)))))
+(assert (forall ((s $S)) (! (=> (= ($S.len s) 1) (= s ($S.unit ($S.at s 0)))) :pattern (($S.len s)))))
 (assert (forall ((a $S) (b $S)) (! (= ($S.len ($S.cat a b)) (+ ($S.len a) ($S.len b))) :pattern (($S.cat a b)))))
 (assert (forall ((a $S) (b $S) (i Int)) (! (= ($S.at ($S.cat a b) i) (ite (< i ($S.len a)) ($S.at a i) ($S.at b (- i ($S.len a))))) :pattern (($S.at ($S.cat a b) i)))))
 (assert (forall ((s $S) (n Int)) (! (=> (and (<= 0 n) (<= n ($S.len s))) (= ($S.len ($S.take s n)) n)) :pattern (($S.take s n)))))
